@@ -444,11 +444,24 @@ func (rpcapi *ClusterRPCAPI) PinsRaw(ctx context.Context, in struct{}, out *[]*a
 		}
 	}
 '''),
+ ('C04-hand-pinupdate-drops-allocations', 'cluster.go',
+  '''	existing.Cid = to
+	existing.PinUpdate = from''', '''	existing.Cid = to
+	existing.Allocations = nil
+	existing.PinUpdate = from'''),
+ ('C04-hand-pinupdate-copies-target', 'cluster.go',
+  '''	existing, err := c.PinGet(ctx, from)
+	if err != nil { // including when the existing pin is not found''', '''	existing, err := c.PinGet(ctx, to)
+	if err != nil { // including when the existing pin is not found'''),
  ('C05-hand-replaced-op-not-cancelled', 'pintracker/optracker/operationtracker.go',
   '''		op.Cancel() // cancel ongoing operation and replace it
 ''', ''),
  ('C05-hand-dedupe-ignores-failed-phase', 'pintracker/optracker/operationtracker.go',
   '''op.Type() == typ && op.Phase() != PhaseError && op.Phase() != PhaseDone''', '''op.Type() == typ && op.Phase() != PhaseDone'''),
+ ('C09-hand-expired-inverted', 'api/types.go', '''	return time.Now().After(expDate)''', '''	return expDate.After(time.Now())'''),
+ ('C16-hand-ispinned-depth0-wants-recursive', 'api/types.go', '''	case maxDepth == 0:
+		return ips == IPFSPinStatusDirect''', '''	case maxDepth == 0:
+		return ips == IPFSPinStatusRecursive'''),
  ('C15-hand-display-reads-other-tag', 'config/util.go', '''f.Tag.Get("hidden") == "true"''', '''f.Tag.Get("hide") == "true"'''),
  # C18
  ('C18-hand-store-add-under-rlock', 'monitor/metrics/store.go', None, None),
